@@ -32,7 +32,7 @@ the response holds no pooled buffer any more, whatever happened before (errors i
 `= none` conjuncts hold by definition of `release`; the content is in the other three: the heap has not
 flagged, and whatever the response still held when its flush returned (`finishFlush`) has really gone back to
 the pool: it is dead afterwards.  (NOT claimed: that no other buffer stays live — leak freedom is not part of
-C11 and `Inv` has no "every live id has an owner" clause; the harness audits leaks with the tracker.) -/
+C11 and `Inv` has no "every live id has an owner" clause; no oracle checks leaks either.) -/
 theorem c11_response_released (e : Env) (prog : List (Env × Op)) :
     let p := (finishFlush e (run {} prog)).1
     let o := (finish e (run {} prog)).1
